@@ -5,7 +5,8 @@ map -> {"m": [[k, v], ...]}; list -> [..]; null/bool as JSON."""
 
 INT_POOL = ["0", "1", "-1", "2", "42", "-7", "9223372036854775807", "-9223372036854775808",
             "18446744073709551615", "9007199254740993", "1000000"]
-FLOAT_POOL = ["1.5", "-0.25", "1e+30", "3.0", ".nan", ".inf", "-.inf", "0.1"]
+FLOAT_POOL = ["1.5", "-0.25", "1e+30", "3.0", ".nan", ".inf", "-.inf", "0.1", "0.00005", "1e-5", "9.9e-5", "0.0001", "1e-7", "1e15", "1e16", "1e17",
+              "1.0e21", "-0.0", "123456789.125", "5e-324", "1.7976931348623157e308", "0.30000000000000004", "2.5e-10", "100000.0", "1e6", "-1e-6"]
 STR_POOL = ["x", "foo", "bar baz", "", "he\"llo", "back\\slash", "line\nbreak", "tab\there", "é✓",
             "true", "123", "a:b", "{j}", "[1]", "~", "=", "None", "ctl\u0001", "$", "}", "{", "a$b"]
 KEYS = ["a", "b", "c", "d", "e"]
@@ -190,7 +191,7 @@ def add_refs(r, layers, n_refs, p_cyclic=8, p_dangling=5, p_embedded=30, p_layer
             path = r.choice(bytop[r.choice(tops)]) + ["nope"]
         ref = ref_text(r, path, selectors)
         if r.chance(p_embedded, 100):
-            ref = r.choice(["pre-", "", "x"]) + ref + r.choice(["-post", "", "${%s}" % ":".join(r.choice(bytop[r.choice(tops)])) if r.chance(1, 3) and mode != "acyclic" else "y"])
+            ref = r.choice(["pre-", "", "x", "$", "$5 for ", "a$b ", "$$", "\\$[q] ", "cd $HOME && "]) + ref + r.choice(["-post", "", "${%s}" % ":".join(r.choice(bytop[r.choice(tops)])) if r.chance(1, 3) and mode != "acyclic" else "y"])
         place_ref(r, L, ei, ref, p_layer)
     if selectors:
         layers[0]["m"] = [[n, s] for n, s in selectors] + layers[0]["m"]
